@@ -596,6 +596,16 @@ func (m *ttMux) distractor(pts int64, s ttSchedule, sameMag bool, allowSubtitle 
 	}
 	h := ttHeader{mag: mag, tens: tens, units: units, serial: s.serial, code: r.intn(8), subtitle: allowSubtitle && r.chance(1, 3), erase: r.bool()}
 	m.add(pts, subUnit(ttPacket(mag, 0, h.data(), lineByte(r))))
+	if r.chance(1, 3) {
+		// the other page designates its own character set (X/28, format 1): none of the selected page's business, also
+		// when both pages are in the same magazine
+		key := []int{0, 1, 2, 3, 4, 6, 8, 10}[r.intn(8)]
+		for key == s.key {
+			key = []int{0, 1, 2, 3, 4, 6, 8, 10}[r.intn(8)]
+		}
+		t := uint32(key)<<10 | uint32(r.intn(8))<<7 | uint32(r.intn(8))<<4 | uint32(r.intn(1024))<<14
+		m.add(pts, subUnit(desigPacket(r, mag, 28, []int{0, 4}[r.intn(2)], t)))
+	}
 	for k := r.intn(4); k > 0; k-- {
 		m.add(pts, subUnit(textPacket(r, mag, 1+r.intn(24), "OTHER PAGE "+strconv.Itoa(mag*100+tens*10+units))))
 	}
